@@ -98,7 +98,7 @@ def evaluate(case):
         t0 = meta[0][0]
         expected = [t for t, v in meta if v]
         if case['view'] == 'live':
-            s = sut.Session(filt=filter_text(case))
+            s = sut.Session(filt=filter_text(case), stop=case.get('stop'))
             out = []
             for l in lines:
                 o, e = s.feed_line(l)
@@ -148,6 +148,12 @@ def gen_cases(tier):
             for shift in shifts[:2]:
                 yield {'gaps': list(gaps), 'visible': list(vis), 'shift': shift, 'dialect': 'mid',
                        'view': 'live', 'conns': 1, 'prelude_shown': False, 'then_list': True}
+    for gaps in itertools.product(GAPS_US, repeat=n):
+        for vis in itertools.product((True, False), repeat=n):
+            yield {'gaps': list(gaps), 'visible': list(vis), 'shift': shifts[1], 'dialect': 'mid', 'view': 'live', 'conns': 1,
+                   'prelude_shown': False, 'stop': 'zz_s.poke(1)'}
+            yield {'gaps': list(gaps), 'visible': list(vis), 'shift': shifts[2], 'dialect': 'mid', 'view': 'live', 'conns': 1,
+                   'prelude_shown': False, 'stop': 'zz_h', 'then_list': True}
     # two connections (tags need the current dialect) and a shown prelude, on a reduced gap set
     for gaps in itertools.product(GAPS_US, repeat=n):
         for vis in itertools.product((True, False), repeat=n):
